@@ -43,6 +43,18 @@ func parseProtectedHeaders(encoded string) (*jwsProtectedHeader, error) {
 			Msg: fmt.Sprintf("jws envelope protected header can't be decoded: %s", err.Error())}
 	}
 
+	// encoding/json matches struct field names case-insensitively, whereas
+	// JWS header names are case-sensitive: reject look-alike names so that
+	// every reader of the header sees the same values.
+	for key := range protected.ExtendedAttributes {
+		for _, headerKey := range headerKeys {
+			if key != headerKey && strings.EqualFold(key, headerKey) {
+				return nil, &signature.InvalidSignatureError{
+					Msg: fmt.Sprintf("jws envelope protected header %q differs from %q only by case", key, headerKey)}
+			}
+		}
+	}
+
 	// delete attributes that are already defined in jwsProtectedHeader.
 	for _, headerKey := range headerKeys {
 		delete(protected.ExtendedAttributes, headerKey)
